@@ -1,7 +1,7 @@
 (* C11: the hand-written descriptions of the primitives under the translated code were written against exactly
    these function bodies of /repo (digests re-derived from the source on every run). *)
 From Coq Require Import String List.
-From MC Require GeneratedStreamKeeper GeneratedWrkchainKeeper GeneratedBeaconKeeper.
+From MC Require GeneratedStreamKeeper GeneratedWrkchainKeeper GeneratedBeaconKeeper GeneratedEnterpriseKeeper.
 From MC Require Import proofs.PrimitiveBodies.
 Import ListNotations.
 Local Open Scope string_scope.
